@@ -20,6 +20,8 @@ package bcl
 //@ func (SliceBinding).binding
 //@ func (StructBinding).binding
 //@ func (*Block).key
+//@   ensures [C03] type_or_type_dot_name: result == (b.Name == "" ? b.Type : b.Type + "." + b.Name)
+//@   modifies nothing
 //@ func (*lineCalc).lineAt
 //@ func isTruthy
 //
